@@ -38,6 +38,92 @@ def _build_read(r):
         return {'self': o, 'nbits': r['n']}
     return {'make': make}
 
+def _gen_create(rng, tier, variant):
+    """each header field over its boundary values {-1, 0, 1, max-1, max, max+1} with the others random in range,
+    all pairwise boundary combinations, random in-range tuples; data lengths {0, 1, 2, 255, 256, 65535, 65536, 65537}
+    and random"""
+    import itertools
+    maxes = [7, 1, 1, 2047, 3, 16383]
+    names = ['version_number', 'type', 'secondary_header_flag', 'apid', 'sequence_flags', 'sequence_count']
+
+    def rand_ok():
+        return [rng.randint(0, m) for m in maxes]
+    lens = [0, 1, 2, 255, 256, 65535, 65536, 65537]
+    for i, m in enumerate(maxes):
+        for b in (-1, 0, 1, m - 1, m, m + 1):
+            vals = rand_ok()
+            vals[i] = b
+            yield {'f': vals, 'dlen': rng.choice([1, 2, 7, 300]), 'fill': rng.getrandbits(8)}
+    for (i, mi), (j, mj) in itertools.combinations(list(enumerate(maxes)), 2):
+        for bi in (0, mi):
+            for bj in (0, mj):
+                vals = rand_ok()
+                vals[i], vals[j] = bi, bj
+                yield {'f': vals, 'dlen': rng.choice([1, 3, 9]), 'fill': rng.getrandbits(8)}
+    for ln in lens:
+        yield {'f': rand_ok(), 'dlen': ln, 'fill': rng.getrandbits(8)}
+    for _ in range(300 if tier == 'quick' else 5000):
+        yield {'f': rand_ok(), 'dlen': rng.choice([1, 2, 5, 64, rng.randint(1, 2000)]), 'fill': rng.getrandbits(8)}
+
+
+def _build_create(r):
+    names = ['version_number', 'type', 'secondary_header_flag', 'apid', 'sequence_flags', 'sequence_count']
+    data = bytes((r['fill'] + i * 7) % 256 for i in range(min(r['dlen'], 64))) + bytes(max(0, r['dlen'] - 64))
+    a = {'data': data}
+    a.update(dict(zip(names, r['f'])))
+    return {'args': a}
+
+
+def _gen_pkt(rng, tier, variant):
+    """all 2**16 values of each of the three 16-bit header words (others random) in thorough tier, 3000 random headers
+    in quick tier; short buffers of 0..7 bytes"""
+    for ln in range(0, 8):
+        yield {'buf': bytes(rng.getrandbits(8) for _ in range(ln)).hex()}
+    if tier == 'thorough':
+        for w in range(3):
+            for v in range(65536):
+                h = [rng.getrandbits(16) for _ in range(3)]
+                h[w] = v
+                yield {'buf': (b''.join(x.to_bytes(2, 'big') for x in h) + b'\x00').hex()}
+    for _ in range(3000):
+        ln = rng.randint(6, 20)
+        yield {'buf': bytes(rng.getrandbits(8) for _ in range(ln)).hex()}
+
+
+def _build_pkt(r):
+    def make():
+        from space_packet_parser.packets import RawPacketData
+        return {'self': RawPacketData(bytes.fromhex(r['buf']))}
+    return {'make': make}
+
+
+def _accessor(name, p, n):
+    return Contract(
+        target=f'packets.RawPacketData.{name}',
+        props=['C13', 'C12', 'C05', 'C01', 'C19'],
+        params={'self': RPD},
+        returns='int',
+        requires=[],
+        ensures={'value': f'implies({p + n} <= 8 * len(self), result == bits(self, {p}, {n}))',
+                 'range': f'implies({p + n} <= 8 * len(self), 0 <= result and result < {2 ** n})',
+                 # the same value read off the 48-bit header word (the form clients of the header layout use)
+                 'word': f'implies(len(self) >= 6, result == low(shr(be(sl(self, 0, 6)), {48 - p - n}), {n}))'},
+        hints=[f'bits_prefix(self, 6, {p}, {n})'],
+        may_raise={'ValueError': f'{p + n} > 8 * len(self)'},
+        modifies=[],
+        native={'gen': _gen_pkt, 'build': _build_pkt,
+                'call': f'packets.RawPacketData.{name}.func'},
+    )
+
+
+HEADER_FIELDS = [('version_number', 0, 3), ('type', 3, 1), ('secondary_header_flag', 4, 1), ('apid', 5, 11),
+                 ('sequence_flags', 16, 2), ('sequence_count', 18, 14)]
+
+IN_RANGE = ('0 <= version_number and version_number <= 7 and 0 <= type and type <= 1 and 0 <= secondary_header_flag '
+            'and secondary_header_flag <= 1 and 0 <= apid and apid <= 2047 and 0 <= sequence_flags and '
+            'sequence_flags <= 3 and 0 <= sequence_count and sequence_count <= 16383 and 1 <= len(data) and '
+            'len(data) <= 65536')
+
 CONTRACTS = [
     # ----------------------------------------------------------------------------------------------------------
     Contract(
@@ -85,5 +171,56 @@ CONTRACTS = [
         raises={'ValueError': 'self.pos + nbits > 8 * len(self)'},
         modifies=['self.pos'],
         native={'gen': _gen_bits, 'build': _build_read},
+    ),
+    # ----------------------------------------------------------------------------------------------------------
+    Contract(
+        target='packets.create_ccsds_packet',
+        props=['C13', 'C01'],
+        params={'data': 'bytes', 'version_number': 'int', 'type': 'int', 'secondary_header_flag': 'int',
+                'apid': 'int', 'sequence_flags': 'int', 'sequence_count': 'int'},
+        returns=RPD,
+        requires=[],
+        ensures={
+            'length': 'len(result) == 6 + len(data)',
+            'data': 'sl(result, 6, len(result)) == data',
+            # the CCSDS primary-header bit layout, as an integer polynomial of the fields
+            'layout': ('be(sl(result, 0, 6)) == version_number * 2**45 + type * 2**44 + secondary_header_flag * 2**43 '
+                       '+ apid * 2**32 + sequence_flags * 2**30 + sequence_count * 2**16 + (len(data) - 1)'),
+            'cursor': 'result.pos == 0',
+        },
+        raises={'ValueError': f'not ({IN_RANGE})'},
+        modifies=[],
+        native={'gen': _gen_create, 'build': _build_create},
+    ),
+] + [_accessor(n, p, w) for n, p, w in HEADER_FIELDS] + [
+    Contract(
+        target='packets.RawPacketData.data_length',
+        props=['C13', 'C01', 'C19'],
+        params={'self': RPD}, returns='int',
+        ensures={'value': 'result == len(self) - 7'},
+        modifies=[],
+        native={'gen': _gen_pkt, 'build': _build_pkt, 'call': 'packets.RawPacketData.data_length.func'},
+    ),
+    Contract(
+        target='packets.RawPacketData.header_values',
+        props=['C13', 'C19', 'C01'],
+        params={'self': RPD}, returns=('tuple', ['int'] * 7),
+        requires=['len(self) >= 6'],
+        ensures={'value': ('result == (bits(self, 0, 3), bits(self, 3, 1), bits(self, 4, 1), bits(self, 5, 11), '
+                           'bits(self, 16, 2), bits(self, 18, 14), len(self) - 7)')},
+        modifies=[],
+        native={'gen': _gen_pkt, 'build': _build_pkt, 'call': 'packets.RawPacketData.header_values.func'},
+    ),
+    # ---- lemma (ghost client program, contracts/ghost_programs.py) ---------------------------------------------------
+    Contract(
+        target='ghost.c13_roundtrip',
+        props=['C13'],
+        params={'data': 'bytes', 'version_number': 'int', 'type': 'int', 'secondary_header_flag': 'int',
+                'apid': 'int', 'sequence_flags': 'int', 'sequence_count': 'int'},
+        returns=RPD,
+        requires=[IN_RANGE],
+        ensures={},
+        modifies=[],
+        native={'gen': _gen_create, 'build': _build_create},
     ),
 ]
